@@ -77,6 +77,10 @@ def templates():
         ("split-duplicate-after-left", "TUCD", lambda n: f"from {q(n['T'])} | join {q(n['U'])} (==k) | select {{{q(n['T'])}.{q(n['D'])}, {q(n['U'])}.{q(n['D'])}, {q(n['T'])}.{q(n['C'])}}} | "
                                               f"take 5 | filter {q(n['C'])} != 'zz'",
          lambda n: [[tag(n['T'], n['D'], i), tag(n['U'], n['D'], i), tag(n['T'], n['C'], i)] for i in R], False),
+        # a recursive step that joins a multi-stage inline relation (emitted as a nested sub-query: CTEs are not available there)
+        ("loop-join-subquery", "TUC", lambda n: f"from {q(n['T'])} | filter k == 1 | select {{k, {q(n['C'])}}} | loop (join side:inner c=(from {q(n['U'])} | filter k > 0 | take 100 | filter k > 1) "
+                                                f"(c.k == this.k + 1) | select {{c.k, c.{q(n['C'])}}})",
+         lambda n: [[1, tag(n['T'], n['C'], 1)], [2, tag(n['U'], n['C'], 2)], [3, tag(n['U'], n['C'], 3)]], False),
         ("aggregate", "TCA", lambda n: f"from {q(n['T'])} | group {{{q(n['C'])}}} (aggregate {{{q(n['A'])} = count this}})",
          lambda n: [[tag(n['T'], n['C'], i), 1] for i in R], False),
         ("table-alias", "TCA", lambda n: f"from {q(n['A'])} = {q(n['T'])} | select {{{q(n['A'])}.{q(n['C'])}}}",
